@@ -60,17 +60,20 @@ claim("C20",
 
 claim("C06",
       "PARTIAL proof. Lean 4 theorems: (1) analysis_covers_fields: for every expression form, every data field read anywhere in it is the root of a path recorded by the "
-      "model of the dependency analysis of to_proc_gen_rec (mutual induction over the AST incl. the main/spread accumulator of array literals); (2) guard_sound: for every "
-      "expression without an object / array literal (data fields, scope variables, literals, member and index chains, calls, unary / binary operators, ??, string "
-      "conversion, conditionals, at any nesting), if the update-path tree covers the difference between old and new data (and the scope trees cover the scope "
-      "variables' changes) and no operand of the emitted guard is truthy, the expression has the same value before and after - over the same analysis function whose "
-      "printed guard and template-data tree expressions are compared byte for byte with the implementation. The remaining value-level cases (object / array literals, "
-      "the tag / list level) are checked by the oracle: create;update...(trees covering the diff by construction: exact/coarsened/true) vs fresh create under the real "
-      "ProcGenWrapper/RangeListManager.",
-      "Trusted: Lean kernel; axioms of guard_sound = {propext, Quot.sound}, of the rest within {propext, Classical.choice, Quot.sound}; harness hook proc_gen_expr; node runner + stub backend; "
-      "oracle-built update trees; the value semantics of guard_sound (atoms / objects, null-safe member reads, operators and calls as pure functions, hoisted temporaries "
-      "hold the new index / condition values). update_refines is NOT proved (oracle only); RangeListManager is executed, not modelled.",
-      "Lean 4 proof (partial: dependency-root coverage + value-level guard soundness without object/array literals) + update-vs-create oracle under the real runtime")
+      "model of the dependency analysis of to_proc_gen_rec; (2) guard_sound, for EVERY expression form (data fields, scope variables, literals, object literals with named "
+      "fields and spread operands, array literals with items, holes and spread operands, member and index chains, calls, unary / binary operators, ??, string conversion, "
+      "conditionals, at any nesting): if the update-path tree covers the difference between old and new data (a node meaning 'only the marked children differ', as the "
+      "framework's own tree builder uses it; scope trees cover the scope variables' changes) and no operand of the emitted guard is truthy, the expression has the same "
+      "value before and after - over the same analysis function whose printed guard and template-data tree expressions are compared byte for byte with the implementation, "
+      "with the run-time helpers Z, Q.a, Q.b, Q.c, Object.assign modelled on trees; (3) objGOld_not_covering: the combination emitted at the pinned commit for a spread "
+      "operand is NOT covering (the failed proof step that produced finding D58, repaired in /repo). The tag / list level (if / for / template / slot bookkeeping, "
+      "RangeListManager) is checked by the oracle: create;update...(trees covering the diff by construction: exact/coarsened/true, and path writes fed to the real tree "
+      "builder of tmpl/index.ts) vs fresh create under the real ProcGenWrapper/RangeListManager.",
+      "Trusted: Lean kernel; axioms within {propext, Classical.choice, Quot.sound}; harness hook proc_gen_expr; node runner + stub backend; oracle-built update trees; the "
+      "value / tree semantics of guard_sound (stated in GE/Thm/C06Guard.lean: atoms / objects with present or absent keys, null-safe member reads, operators and calls as pure "
+      "functions, array tail abstract, hoisted temporaries hold the new index / condition values, real trees at least as marked as the model). update_refines is NOT "
+      "proved (oracle only); RangeListManager is executed, not modelled.",
+      "Lean 4 proof (partial: dependency-root coverage + value-level guard soundness of every expression form) + update-vs-create oracle under the real runtime")
 claim("C07",
       "PARTIAL proof. Lean 4 theorems about the model of BindingMapCollector as a state machine over add/disable/disable_all: advertised_iff (advertised iff collected, never "
       "disabled, map not disabled — in any order), disabled_stays_disabled, size_eq_count; model tied by differential runs through a cfg hook. Oracle: for every advertised "
